@@ -381,7 +381,7 @@ func genPrio(engine, prop string, r *simrt.SplitMix) *PrioSc {
 			// thorough tier only (the guard comes first, so the quick tier draws exactly what it
 			// drew before): now and then more inputs than a machine word has bits, or than a
 			// small fixed table has slots - per-input state kept in bitmaps or fixed arrays
-			manyInputs = scale > 1 && prop == "C02" && !v1 && r.Intn(12) == 0
+			manyInputs = scale > 1 && (prop == "C02" || prop == "C01") && !v1 && r.Intn(12) == 0
 			if manyInputs {
 				n = pick(r, 33, 65, 66, 70, 129)
 				span = 4 * n
